@@ -16,7 +16,7 @@ from ..model import Undecided
 from ..cfg import dotted, call_name, is_call, simple_name, unparse, const_value, contains, enclosing
 from ..flow import Defs, depends, scoped_defs
 from ..axis import axis_reports
-from ..util import keyword, returns_of, calls_in, inside, order_key
+from ..util import origin_path, keyword, returns_of, calls_in, inside, order_key
 
 NOT_DECIDED = 'pixel identity across strategies, crop offsets at truncated buffers, size rounding, which strategy is chosen'
 
@@ -83,9 +83,10 @@ def c04a(ctx):
     defs = Defs(sm.node)
     tc = [x for x in sm.walk() if is_call(x, 'Tile')]
     gt = [x for x in sm.walk() if is_call(x, 'splitter.get_tile')]
-    ok = bool(tc) and bool(gt) and unparse(tc[0].args[0]) == 'tile_coord' and unparse(gt[0].args[0]) == 'crop_coord' and unparse(gt[0].args[1]) == sm.params[2]
-    un = [s for s in sm.walk() if isinstance(s, ast.Assign) and isinstance(s.targets[0], ast.Tuple) and [unparse(e) for e in s.targets[0].elts] == ['tile_coord', 'crop_coord']]
-    ok = ok and bool(un)
+    ok = bool(tc) and bool(gt) and len(tc[0].args) >= 1 and len(gt[0].args) >= 2 and unparse(gt[0].args[1]) == sm.params[2]
+    if ok:
+        # coordinate = element 0 and crop position = element 1 of the same entry of the patterns parameter
+        ok = origin_path(tc[0].args[0], defs) == (sm.params[1], ('elem', 0)) and origin_path(gt[0].args[0], defs) == (sm.params[1], ('elem', 1))
     ctx.check(ok, 'split_meta_tiles:pairs-coord-with-crop', 'each tile takes its coordinate and its crop position from the same pattern entry', sm,
               fail='a tile is cut at the crop position of another pattern entry')
     fb = ctx.fn(TILE + ':TileCreator._create_bulk_meta_tile')
